@@ -134,8 +134,12 @@ def h_checkpoint(e, cfg):
     Bm = build(e, cfg, P)
     for t in range(k):
         run_step(e, cfg, A, e.sym((B, 3), torch.bool, f"a{t}", ind=True))
+    if cfg.get("target_eval"):
+        Bm[0].eval()                # "in an arbitrary prior state": the target was last used for evaluation (no adaptation / learning updates)
     for t in range(max(j, 1)):      # the target has seen at least one step (lazily shaped recorders), on OTHER data
         run_step(e, cfg, Bm, e.sym((B, 3), torch.bool, f"o{t}", ind=True))
+    if cfg.get("target_eval"):
+        Bm[0].train()
     if k == 0:
         run_step(e, cfg, A, e.sym((B, 3), torch.bool, "a_init", ind=True))      # shapes exist in the checkpoint as well
     from harness.common import witness_any
@@ -229,6 +233,11 @@ def checks(tier):
                         for k in ks:
                             for j in ((1, 2) if (th or k in (0, 3)) else (2,)):
                                 cfgs.append(dict(layer=layer, syn=syn, neuron=neuron, delay=delay, trainer=trainer, inplace=bool((k + j) % 2), k=k, j=j, m=2, B=1))
+    # targets that were last stepped in eval mode (adaptive neurons: no adaptation update in those steps)
+    for layer in ("serial", "recurrent"):
+        for neuron in (("alif", "adex", "lif") if th else ("alif", "adex")):
+            for k, j in ((2, 1), (3, 2)):
+                cfgs.append(dict(layer=layer, syn="delta", neuron=neuron, delay=None, trainer="none", inplace=bool(k % 2), k=k, j=j, m=2, B=1, target_eval=True))
     cl = []
     for n, c in ((2, 2), (3, 2), (2, 3)):
         for prop in (True, False):
@@ -242,7 +251,7 @@ def checks(tier):
 
 
 BOUNDS = {
-    "quick": {"checkpoint step k": "0..4 (ring size 3) for the delayed STDP / no-trainer serial models, {0,2,3} otherwise", "target prior steps j": [1, 2], "steps after restore m": 2,
+    "quick": {"checkpoint step k": "0..4 (ring size 3) for the delayed STDP / no-trainer serial models, {0,2,3} otherwise", "target prior steps j": "1-2 (also with the target in eval mode during them, for adaptive neurons)", "steps after restore m": 2,
               "components": "Serial / RecurrentSerial x 4 synapses x LIF/ALIF/AdEx x delay none/2dt (heterogeneous per-synapse) x trainer none/STDP(delayed)/MSTDPET/DelayAdjustedSTDP x in-place/not "
                             "(every component appears; not every combination) + an input monitor with a 3-slot CA reducer + a state monitor (single-slot EMA of the neuron voltage); MaxRateClassifier (source fresh / rates assigned / trained by 1-2 labelled calls on symbolic rates; target with arbitrary rates and already used for inference; 1 labelled call after the restore; proportional on/off)",
               "sizes": "3 inputs, 2 neurons, batch 1"},
